@@ -701,7 +701,12 @@ printf("debug> '%s' is a macro.  param_count=%d\n", token, param_count);
         else
       {
         char *expanded = macros_expand_params(asm_context, macro, param_count);
-        if (expanded == NULL) { return TOKEN_EOF; }
+        if (expanded == NULL)
+        {
+          // The error was printed, make sure assembly fails too.
+          asm_context->error = 1;
+          return TOKEN_EOF;
+        }
         macros_push_define(&asm_context->macros, expanded);
       }
 
